@@ -3,11 +3,11 @@ import json, os, random, time
 from . import common, refine, vocab, render, sig
 from .common import log
 
-SMALL_FAMS = ("F3a", "F3b", "F3c", "F4")
-ALL_FAMS = ["F1a", "F1b", "F1c", "F1d", "F1e", "F1f", "F1g", "F2a", "F2b", "F2c", "F2z", "F2s", "F3a", "F3b", "F3c", "F4", "F5a", "F5b", "F5c", "F7a", "F7b", "F7c", "F8", "F8g", "F9", "FL", "FW"]
+SMALL_FAMS = ("F3a", "F3b", "F3c", "F4", "F4b", "F8f")
+ALL_FAMS = ["F1a", "F1b", "F1c", "F1d", "F1e", "F1f", "F1g", "F2a", "F2b", "F2c", "F2z", "F2s", "F3a", "F3b", "F3c", "F3d", "F4", "F4b", "F5a", "F5b", "F5c", "F5d", "F7a", "F7b", "F7c", "F8", "F8g", "F8f", "F8h", "F9", "FL", "FW"]
 # quick-tier sample size per family (the thorough tier takes every program of every family)
 QUICK_N = {"F1a": 500, "F1b": 250, "F1c": 150, "F1d": 250, "F1e": 100, "F1f": 250, "F1g": 100, "F2a": 400, "F2z": 60, "F2s": 60, "F2b": 63,
-           "F2c": 120, "F3a": 150, "F3b": 80, "F3c": 12, "F4": 26, "F5a": 200, "F5b": 120, "F5c": 200, "F7a": 84, "F7b": 250, "F7c": 200, "F8": 400, "F8g": 450, "F9": 350, "FL": 40, "FW": 10}
+           "F2c": 120, "F3a": 150, "F3b": 80, "F3c": 12, "F4": 26, "F5a": 200, "F5b": 120, "F5c": 200, "F5d": 40, "F3d": 50, "F4b": 40, "F7a": 84, "F7b": 250, "F7c": 200, "F8": 400, "F8g": 450, "F8f": 80, "F9": 350, "FL": 40, "FW": 10}
 
 
 def sample_programs(tier, fams=None, scale=1.0, name="gen"):
@@ -125,8 +125,19 @@ def c02(tier):
     st = pl.stats
     if st["programs"] - st["rejected"] - st["crashed"] - st["linkerr"] < 10:
         raise common.ToolError("vacuous run: %s" % json.dumps(st))
-    cov = dict(programs=st["programs"], disagreements_checked=nbad, samples=pl.samples[:5],
-               states=st["states"], transitions=st["transitions"], traces_validated_against_impl=st["behaviours"],
+    # ---- Layer 2: Peephole.tla (optimize() as coded): its belief tracking is model-checked (ValueSound, BeliefSound) on every
+    # line sequence within the bound, and bound to the real optimize() by replaying the sequences (drift is reported, it is not a verdict)
+    from . import peephole
+    if tier == "quick":
+        pres, pconfs, pdrift = peephole.run(tier, "c02", 4, 2, 211, 12000)
+    else:
+        pres, pconfs, pdrift = peephole.run(tier, "c02", 4, 3, 13, 150000)
+    layer2 = dict(sequences_model_checked=pres.distinct, max_lines=4, invariants=["ModelTerminates", "ValueSound", "BeliefSound"],
+                  sequences_replayed_into_optimize=len(pconfs), model_conformant=(len(pdrift) == 0), first_drift=(pdrift[0] if pdrift else None), drifts=len(pdrift))
+    if pdrift:
+        print("[vf] NOTE: optimize() no longer behaves like Peephole.tla on %d of %d replayed sequences (model drift), e.g. %s" % (len(pdrift), len(pconfs), json.dumps(pdrift[0])[:400]))
+    cov = dict(programs=st["programs"], disagreements_checked=nbad, samples=pl.samples[:5], layer2_Peephole=layer2,
+               states=st["states"] + pres.distinct, transitions=st["transitions"] + pres.generated, traces_validated_against_impl=st["behaviours"],
                accepted=st["programs"] - st["rejected"] - st["crashed"], rejected_by_compiler=st["rejected"],
                variants_identical_to_an_earlier_one_not_re_executed=st["identical_variants"], reference_runs_cut_at_bound=st["cut"],
                attributed_to_known_findings=verdict.known, exhaustive=(tier == "thorough"),
